@@ -239,6 +239,9 @@ SPEC_MOVES_RE = re.compile(r"check=(\w+) n=(\d+) sorted=\[(.*?)\](?: F=(\S*))?")
 class C01(Check):
     pid = "C01"
     props_module = "TcheranVerif.Props.C01"
+    gen_modules = ("Magics",)
+    # the `_tables` corollaries inherit the one native_decide of Props.C07 (magic-table sweep)
+    allow_native = ("native_decide",)
     rule = ("positions from the corpus (repo bench/perft/SEE/SAN/WAC FENs + past failures), Rules-chosen random "
             "playouts, random legal placements (sparse and dense) and e.p./pin/castling templates; distinct = "
             "distinct FEN; non-trivial = at least one of: in check, e.p. target set, pinned man, castling right, "
